@@ -85,6 +85,13 @@ def witnesses():
                       ("if", [(atom("c", "==", 1), [("simult", [("f", P.det(c(1))), ("x", P.det(add(v("x"), c(1))))])])], None),
                       ("if", [(atom("f", "==", 1), [assign("x", add(v("x"), c(2)))])], None)]),
                 {}, "simult-in-branch"))
+    # 20b: the same root cause without a later condition: the finite coefficient f becomes untyped, a = f*a
+    # counts as a non-linear self-dependency and a is classified defective
+    out.append((prog([assign("c", c(0)), assign("f", c(1)), assign("a", c(0))],
+                     [assign("c", bern(F(1, 2))),
+                      ("if", [(atom("c", "==", 1), [("simult", [("f", P.det(c(2))), ("c", P.det(c(0)))])])], None),
+                      assign("a", add(mul(v("f"), v("a")), c(1))), assign("f", c(1))]),
+                {}, "simult-in-branch"))
     # 21: a finite variable assigned twice per iteration, the second time from itself (no guard, no branch)
     out.append((prog([assign("f", c(0)), assign("y", c(0))],
                      [("assign", "f", choice2(F(1, 2), c(0), c(1))), assign("f", add(v("f"), c(1))),
@@ -392,11 +399,15 @@ def choice_inside_branch(p):
     return rec(p["body"], 0)
 
 
-def simult_in_branch_assigns_condition_variable(p):
+def simult_in_branch_assigns_condition_variable(p, among=None):
+    """a simultaneous assignment inside a branch assigns a variable of some condition (or, if [among] is
+    given, one of those variables)"""
     cvars = set(gen.cond_vars(p["guard"]))
     for s, _ in walk_ifs(p["body"]):
         for cnd, _ in s[1]:
             cvars |= gen.cond_vars(cnd)
+    if among is not None:
+        cvars = set(among)
 
     def rec(block, depth):
         for s in block:
